@@ -31,7 +31,11 @@ Definition run_model (fs : list bytes) : bytes :=
 
 Definition run_spec (fs : list bytes) : bytes :=
   let op := nth_field 0 fs in
-  if bytes_eqb op (bs "q") then bs "q x" ++ hex_encode (quote (fully_of fs) (nth_field 1 fs))
+  if bytes_eqb op (bs "q") then
+    match git_quote_c_style (fully_of fs) (nth_field 1 fs) with
+    | Some qd => bs "q x" ++ hex_encode qd
+    | None => bs "HANG"
+    end
   else bs "-".
 
 Definition run (fs : list bytes) : bytes :=
